@@ -36,6 +36,14 @@ def parse_dist(s):
     return [tuple(Fraction(x) for x in pq.split(":")) for pq in s.split(",")]
 
 
+# threshold EXACTLY on the probability of an arrangement, decided exactly in f64 too: one two-isotope element next to
+# monoisotopic ones (every other factor is exactly 1.0) and t = the table's own decimal for the rarer isotope.
+# "probability at least t" keeps that arrangement.
+EXACT_TIES = [("F:0=1,Br:0=1", Fraction(4931, 10000)), ("Br:0=1,F:0=2", Fraction(4931, 10000)),
+              ("Na:0=1,Cl:0=1", Fraction(2424, 10000)), ("P:0=1,B:0=1,F:0=1", Fraction(199, 1000)),
+              ("Cu:0=1,I:0=1", Fraction(3085, 10000)), ("F:0=1,Li:0=1", Fraction(759, 10000))]
+
+
 def gen_cases(r: Run):
     rng = random.Random(r.seed)
     ni = niso()
@@ -52,6 +60,8 @@ def gen_cases(r: Run):
     for pairs, t in corpus:
         for form in ("vec", "map"):
             cases.append((pairs, t, form))
+    for pairs, t in EXACT_TIES:
+        cases.append((pairs, t, "vec"))
     # an element whose every arrangement falls below the threshold (the running product becomes EMPTY), placed
     # before / between / after other elements: the result must stay empty
     ma = max_abundance()
@@ -167,8 +177,9 @@ def run(r: Run):
                 if not sorted_close(peaks, want):
                     problems.append(("exact", f"{len(peaks)} peaks, the composition has {len(want)} arrangements (or masses/intensities differ)"))
             else:
-                must = [a for a in arr if a[1] >= t * (1 + Fraction(1, 10 ** 9))]
-                may = [a for a in arr if a[1] >= t * (1 - Fraction(1, 10 ** 9))]
+                tie = (pairs, t) in EXACT_TIES
+                must = [a for a in arr if a[1] >= (t if tie else t * (1 + Fraction(1, 10 ** 9)))]
+                may = [a for a in arr if a[1] >= (t if tie else t * (1 - Fraction(1, 10 ** 9)))]
                 if len(must) != len(may):
                     skipped += 1
                 else:
